@@ -431,7 +431,9 @@ def enabled_in(kind, ev):
     if kind == "ENU":
         return k in ("geo", "ecef", "enu")
     if kind == "L93":
-        return k == "geo"
+        # re-basing a projected track is not offered (the recorded base is a SRID number): the request is fired all the same,
+        # with one base in both forms - refused or not, see make_check
+        return k == "geo" or (k == "enu" and ev[1] == 0)
     return False
 
 
@@ -483,6 +485,15 @@ def make_check(ctx, which, variant, depth_bound):
         kb = kind_of(before)
         changed = canon(before) != canon(after)
         ctx.case(changed and len(hist) > 0)
+        if res[0] == "exc" and kb == "L93" and k == "enu":
+            # a request the API refuses in this state: the track and the base it records are as they were (what comes next -
+            # the return to geographic coordinates - is explored from this state like from any other)
+            ctx.count("refused_request_in_the_projected_state")
+            if changed:
+                ctx.violation(site + "/refused-on-a-projected-track/track-or-recorded-base-changed", case,
+                              {"base_before": _base_canon(before.base), "base_after": _base_canon(after.base), "result": res[1]})
+                return False
+            return True
         if res[0] != "ok":
             ctx.violation("%s/%s" % (site, "does-not-return" if res[0] == "hang" else "raises"), case,
                           {"state": kb, "result": res[1]})
